@@ -187,7 +187,9 @@ Commit(S, a, r, dl, ug) ==
 
 Call(op, ps, c) == [op |-> op, n |-> N, ps |-> ps, c |-> c, fail |-> "no", lg |-> <<>>, rch |-> <<>>, tk |-> <<>>, dl |-> <<>>]
 LinkUp  == link = "up"
-CanSend == phase = "normal" /\ (peerOpen \/ Env) /\ (LinkUp \/ Env) /\ nops < MaxOps
+\* (Env: a send-family call can also be made when the link is down or the child's stdin was closed - it fails then)
+\* (IF rather than a disjunction: TLC would take the action once per true disjunct and the dumped graph would have the edge twice)
+CanSend == phase = "normal" /\ (IF Env THEN TRUE ELSE peerOpen /\ LinkUp) /\ nops < MaxOps
 NoEnvChange == UNCHANGED <<link, outOpen, implShut, rd, kq, pend>>
 
 \* a send-family call: its send()s one after the other, up to the one that fails (if any)
@@ -220,7 +222,7 @@ SendControl(c) ==
   /\ LET S == ControlSteps(Cur, N, c) IN Commit(S, Call("control", <<>>, c), Count(S.out), <<>>, <<>>)
   /\ UNCHANGED <<phase, peerOpen>> /\ NoEnvChange
 SendEof ==
-  /\ CanSend /\ Transport \in {"pty", "popen"} /\ LinkUp /\ peerOpen /\ (Env \/ Aw => Transport = "popen")
+  /\ CanSend /\ Transport \in {"pty", "popen"} /\ LinkUp /\ peerOpen /\ (IF Env \/ Aw THEN Transport = "popen" ELSE TRUE)
   /\ IF Transport = "pty"
      THEN /\ LET S == ControlSteps(Cur, N, "eof") IN Commit(S, Call("eof", <<>>, "eof"), None, <<>>, <<>>)
           /\ UNCHANGED peerOpen
